@@ -67,6 +67,11 @@ def _gen_dir(rng, files, sp, rel, name, cfg, depth, style):
             if (d, "stub") in memo:
                 init_forms = ["py"]
             memo[(d, "stub")] = True
+        ext_init = any("ext" in forms for forms in cfg["module_forms"]) and depth >= 2 and rng.random() < 0.15
+        if ext_init:
+            # a package whose __init__ is a compiled extension (what mypyc / Cython builds ship), with or without stubs
+            init_forms = [f for f in init_forms if f != "py"]
+            files[f"{d}__init__{rng.choice(EXTS)}"] = ""
         for form in init_forms:
             files[f"{d}__init__.{form}"] = _body(form, f"sp{sp}/{d}__init__.{form}")
     elif style == "pkgutil":
@@ -335,8 +340,20 @@ def compare_with_cpython(ctx, w, tree, target, search_paths, inspection, dirs):
     imp = cpy.importable_tree(target, search_paths)
     walk = cpy.walker_tree(target, search_paths)
     ctx.probe("oracle-importable-names", len(imp))
+    # With inspection disallowed a package whose __init__ is a compiled extension cannot be analysed at all: neither
+    # it nor anything below it is judged then (the static loader skips compiled modules, see C15).
+    unloadable = set()
+    if not inspection:
+        unloadable = {d for d, f in imp.items() if f is not None and f.kind == "package" and f.loader in ("ext", "bytecode")}
+
+    def _below_unloadable(dotted):
+        return any(dotted == u or dotted.startswith(u + ".") for u in unloadable)
+
     # (L) every module Griffe loaded is what CPython would import at that name, or is stubs
     for dotted, node in tree.items():
+        if _below_unloadable(dotted):
+            ctx.probe("below-compiled-package-static")
+            continue
         found = imp.get(dotted)
         file = node["file"]
         tags = conflict_tags(dirs, dotted)
@@ -380,6 +397,9 @@ def compare_with_cpython(ctx, w, tree, target, search_paths, inspection, dirs):
     for dotted, ispkg in walk.items():
         found = imp.get(dotted) or cpy.find(dotted, imp[dotted.rsplit(".", 1)[0]].dirs or [], search_paths) if "." in dotted and dotted.rsplit(".", 1)[0] in imp else imp.get(dotted)
         if dotted in tree:
+            continue
+        if _below_unloadable(dotted):
+            ctx.probe("below-compiled-package-static")
             continue
         tags = conflict_tags(dirs, dotted)
         if found is not None and found.loader in ("ext", "bytecode") and not inspection:
